@@ -4,7 +4,7 @@ CFG = dict(
     coq="Properties/C09.v",
     areas=["mt"],
     level="proof",
-    theorems_expected=["C09_mt_no_deadlock", "C09_mt_measure", "C09_mt_terminates", "C09_mt_complete",
+    theorems_expected=["C09_mt_no_deadlock", "C09_mt_measure", "C09_mt_terminates", "C09_mt_complete", "C09_mt_error_sticky",
                        "C09_mt_deadlock_refuted", "C09_mt_empty_input_refuted", "C09_mt_finish_after_error_refuted"],
     rule=MT_RULE,
     trusted_base=MT_TB,
